@@ -7,6 +7,7 @@ import Lomond.Model.Utf8
 import Lomond.Model.Frame
 import Lomond.Model.Http
 import Lomond.Model.Core
+import Lomond.Model.Persist
 
 namespace Lomond.Driver
 open Lomond Lomond.Core
@@ -170,8 +171,52 @@ def runUtf8 (args : List String) : String :=
     hexOfBytes (Utf8.encode (if cps = "" then [] else (cps.splitOn ".").map natOf))
   | _ => "bad-op"
 
+/-! ### C16: `persist <cfg> | <draw> <exit> <event tokens…> | …`  (one section per round) -/
+
+def intOf (s : String) : Int :=
+  if s.startsWith "-" then - (Int.ofNat (natOf (s.drop 1).toString)) else Int.ofNat (natOf s)
+
+def ratOf (s : String) : Rat :=
+  match s.splitOn "/" with
+  | [n] => mkRat (intOf n) 1
+  | [n, d] => mkRat (intOf n) (natOf d)
+  | _ => 0
+
+def showRat (r : Rat) : String := toString r.num ++ "/" ++ toString r.den
+
+/-- `event.name == 'ready'`: the name is the second `:`-separated field of an event token -/
+def tokIsReady (t : String) : Bool := (t.splitOn ":").getD 1 "" == "ready"
+
+def showPersistObs : Persist.Obs String String → String
+  | .connect p r t => "C:" ++ p ++ "," ++ r ++ "," ++ t
+  | .yield (.ev e) => e
+  | .yield (.backOff d) => "B:" ++ showRat d
+  | .random => "R"
+  | .wait d => "X:" ++ showRat d
+
+def parseRound (sec : String) : Option (Persist.Round String) :=
+  match (sec.splitOn " ").filter (fun w => w ≠ "") with
+  | u :: x :: evs => some { events := evs, draw := ratOf u, exit := x = "1" }
+  | _ => none
+
+def runPersist (line : String) : String :=
+  match line.splitOn " | " with
+  | [] => "bad-op"
+  | cfgS :: secs =>
+    let ct := cfgS.splitOn " "
+    let cfg : Persist.Cfg String :=
+      { minWait := ratOf (kv ct "min" "5"), maxWait := ratOf (kv ct "max" "30"),
+        poll := kv ct "poll" "5", pingRate := kv ct "prate" "30", pingTimeout := kv ct "ptimeout" "N" }
+    let rounds := secs.filterMap parseRound
+    if rounds.length ≠ secs.length then "bad-op"
+    else
+      let res := Persist.persist tokIsReady cfg rounds
+      " ".intercalate (res.1.map showPersistObs ++
+        [match res.2 with | .exited => "END:exited" | .running => "END:running"])
+
 def handle (line : String) : String :=
   if line.startsWith "core " then runCore (line.drop 5).toString
+  else if line.startsWith "persist " then runPersist (line.drop 8).toString
   else
     match line.splitOn " " with
     | "utf8" :: args => runUtf8 args
